@@ -75,9 +75,20 @@ class C28(Prop):
             return ov
         vlib.build_overlay = only_mine
         try:
-            return Prop.run_drivers(self, ctx, n, seed, replay)
+            cases, summaries, errors = Prop.run_drivers(self, ctx, n, seed, replay)
         finally:
             vlib.build_overlay = orig
+        # directory-level content: whole recordings (several segments; with / without the stream-id box in any order)
+        # served by the real /list and /get handlers. That driver belongs to C29; here only "did the handler panic"
+        # is judged (extra_checks), which is C28's subject.
+        outp = os.path.join(ctx.workdir, "c28_dirs.jsonl")
+        env = {"VERIF_SEED": seed, "VERIF_N": max(60, n // 20), "VERIF_OUT": outp, "VERIF_TIER": ctx.tier, "VERIF_WORK": ctx.workdir}
+        rc, out = vlib.run_driver(ctx.workdir, "internal/playback", "TestVerifC29", env, timeout=900)
+        self.dir_cases = [r for r in vlib.read_jsonl(outp) if "summary" not in r]
+        if rc != 0:
+            errors.append("directory driver (TestVerifC29) failed rc=%d:\n%s" % (rc, out[-3000:]))
+        summaries.append({"directory_requests": len(self.dir_cases)})
+        return cases, summaries, errors
 
     def evaluate(self, ctx, cases):
         # the driver's first record carries the definitions of the two base files (every other file is written as
@@ -93,6 +104,13 @@ class C28(Prop):
     def extra_checks(self, ctx, cases):
         # the witness of the known third-party finding is judged here (same bound as Check.C28.alloc_limit)
         out = []
+        for c in getattr(self, "dir_cases", []):
+            d = c.get("desc") or {}
+            if d.get("status") == 599:   # the handler panicked (the real server exits on it)
+                c2 = dict(c)
+                c2["coq"] = None
+                out.append(dict(kind="spec", case=c2, what="/%s panicked on a recording directory: %s" % (d.get("endpoint"), d.get("query"))))
+                break
         for c in cases:
             d = c.get("desc") or {}
             if d.get("gen") != "known":
